@@ -581,14 +581,17 @@ impl DbInner {
 
 									commit.check_for_deferral = true;
 
-									let node_change =
-										NodeChange::DereferenceChildren(key, hash, children);
-
-									commit
+									let indexed = commit
 										.indexed
 										.entry(col)
-										.or_insert_with(|| IndexedChangeSet::new(col))
-										.push_node_change(node_change);
+										.or_insert_with(|| IndexedChangeSet::new(col));
+									let node_change = NodeChange::DereferenceChildren(
+										key,
+										hash,
+										children,
+										indexed.changes.len(),
+									);
+									indexed.push_node_change(node_change);
 								} else {
 									return Err(Error::InvalidConfiguration(
 										"No entry for tree root".to_string(),
@@ -815,7 +818,7 @@ impl DbInner {
 				let mut defer = false;
 				'outer: for (col, key_values) in commit.changeset.indexed.iter() {
 					for change in &key_values.node_changes {
-						if let NodeChange::DereferenceChildren(_key, hash, _children) = change {
+						if let NodeChange::DereferenceChildren(_key, hash, _children, _) = change {
 							// Check if there are currently any locks on the tree. Will need to
 							// defer if there are.
 							let trees = self.trees.read();
@@ -897,7 +900,7 @@ impl DbInner {
 				} else {
 					for (col, key_values) in commit.changeset.indexed.iter() {
 						for change in &key_values.node_changes {
-							if let NodeChange::DereferenceChildren(_key, hash, _children) = change {
+							if let NodeChange::DereferenceChildren(_key, hash, _children, _) = change {
 								let mut trees = self.trees.write();
 								if let Some(column_trees) = trees.get_mut(&col) {
 									let count = column_trees.to_dereference.get(hash).unwrap_or(&0);
@@ -2190,8 +2193,10 @@ pub enum NodeChange {
 	NewValue(u64, RcValue),
 	/// (address)
 	IncrementReference(u64),
-	/// Dereference and remove any of the children in the tree
-	DereferenceChildren(Vec<u8>, Key, Children),
+	/// Dereference and remove any of the children in the tree. The last field is the number of
+	/// keyed changes of the same set that were given before it: it is planned after these and
+	/// before the ones that follow.
+	DereferenceChildren(Vec<u8>, Key, Children, usize),
 }
 
 #[derive(Debug, Default)]
@@ -2331,14 +2336,24 @@ impl IndexedChangeSet {
 				return Ok(())
 			},
 		};
-		for change in self.changes.iter() {
-			if let PlanOutcome::NeedReindex = column.write_plan(change, writer)? {
-				// Reindex has triggered another reindex.
-				*reindex = true;
-			}
-			*ops += 1;
-		}
-		for change in self.node_changes.iter() {
+		// Keyed changes are planned before the node changes, except that a tree removal is planned
+		// where it was given: after the keyed changes that precede it in the transaction and before
+		// the ones that follow (removing a tree and inserting it again leaves the new tree).
+		let next_stop = |from: usize| -> usize {
+			self.node_changes[from..]
+				.iter()
+				.find_map(|c| match c {
+					NodeChange::DereferenceChildren(_, _, _, position) =>
+						Some((*position).min(self.changes.len())),
+					_ => None,
+				})
+				.unwrap_or(self.changes.len())
+		};
+		let mut planned = 0;
+		let stop = next_stop(0).max(planned);
+		self.write_keyed_plan(planned..stop, column, writer, ops, reindex)?;
+		planned = stop;
+		for (i, change) in self.node_changes.iter().enumerate() {
 			match change {
 				NodeChange::NewValue(address, val) => {
 					column.write_address_value_plan(
@@ -2356,7 +2371,7 @@ impl IndexedChangeSet {
 						*reindex = true;
 					}
 				},
-				NodeChange::DereferenceChildren(key, hash, children) => {
+				NodeChange::DereferenceChildren(key, hash, children, _) => {
 					if let Some((_root, rc)) = column.get(hash, writer)? {
 						column.write_plan(&Operation::Dereference(*hash), writer)?;
 						log::debug!(target: "parity-db", "Dereferencing root, rc={}", rc);
@@ -2377,8 +2392,29 @@ impl IndexedChangeSet {
 						}
 					}
 					// TODO: Remove TreeReader from Db.
+					let stop = next_stop(i + 1).max(planned);
+					self.write_keyed_plan(planned..stop, column, writer, ops, reindex)?;
+					planned = stop;
 				},
 			}
+		}
+		Ok(())
+	}
+
+	fn write_keyed_plan(
+		&self,
+		range: std::ops::Range<usize>,
+		column: &HashColumn,
+		writer: &mut crate::log::LogWriter,
+		ops: &mut u64,
+		reindex: &mut bool,
+	) -> Result<()> {
+		for change in self.changes[range].iter() {
+			if let PlanOutcome::NeedReindex = column.write_plan(change, writer)? {
+				// Reindex has triggered another reindex.
+				*reindex = true;
+			}
+			*ops += 1;
 		}
 		Ok(())
 	}
